@@ -67,6 +67,23 @@ def pC08 (d e : Doc) : String :=
       | _, _ => "violated: from_sources([d,e]) failed"
   | _, _ => "skip"
 
+/-- C03 evaluated on the model, mirroring the harness' `p_c03` -/
+def pC03 (ds : List Doc) : String :=
+  match fromSourcesDoc ds with
+  | .error _ => "skip"
+  | .ok s =>
+    let rec go : Nat → List Doc → String
+      | _, [] => if isSubset s s then "ok" else "violated: merged shape not a subset of itself"
+      | i, d :: rest =>
+        match inferDoc d with
+        | .error _ => "skip"
+        | .ok sd =>
+          if !isSubset sd s then
+            "violated: i=" ++ toString i ++ " from_str(d_i).is_subset(from_sources(d)) is false; "
+              ++ sexp sd ++ " vs " ++ sexp s
+          else go (i + 1) rest
+    go 0 ds
+
 def step (line : String) : String :=
   match line.splitOn "\t" with
   | ["subset", a, b] => withShape a fun a => withShape b fun b => showBool (isSubset a b)
@@ -145,6 +162,10 @@ def step (line : String) : String :=
       | some d, some e => pC08 d e
       | _, _ => "not-json"
   | ["p_c17", _] => "n/a"
+  | "p_c03" :: hs =>
+      match docsOfHex hs with
+      | none => "not-json"
+      | some ds => pC03 ds
   | ["rfc", h] =>
       match docOfHex h with
       | none => "reject"
